@@ -1732,7 +1732,9 @@ fn vcf_header_line_table(text: &[u8]) -> (String, usize) {
 /// beyond the header text the written header and the usual record-line rules; inside the header
 /// text a header returned without error must consist of complete written header lines (a header
 /// parsed from a partial last line is the class text-truncated-header-line-accepted-<fmt>), and no
-/// record may follow.
+/// record may follow.  VCF (reader stops behind #CHROM; c13_vcf_text_header_cut_verdict): inside
+/// the header text a header may only come back from a non-empty strict prefix of the #CHROM line
+/// on a source that ends (else tag vcf-header-cut-accepted-outside-chrom-line).
 fn run_thfile(c: &Case) -> Obs {
     let vcf_fmt = c.kind.starts_with("vcf");
     let z = c.kind.ends_with('z');
@@ -1817,7 +1819,14 @@ fn run_thfile(c: &Case) -> Obs {
                     // complete lines delivered: j; acceptable = the header of j lines, or of j + 1
                     // lines when the partial last line is the whole line without its line feed
                     let j = line_ends.iter().filter(|&&e| e <= n).count() - 1;
-                    let ok_j = prefix_headers[j].as_ref() == Some(t);
+                    // VCF (c13_vcf_text_header_cut_verdict): the only cut inside the header text that
+                    // may return a header is a non-empty strict prefix of the LAST (#CHROM) line on a
+                    // source that ends; anything else (a line boundary, a ## line) must be an error
+                    if vcf_fmt && !(mid_line && j + 2 == line_ends.len()) {
+                        fails.push(("vcf-header-cut-accepted-outside-chrom-line".to_string(), format!("cut {k}: the stream ends at {n} (header line {j} of {}, mid line: {mid_line}) and a header is returned", line_ends.len() - 1)));
+                        continue;
+                    }
+                    let ok_j =prefix_headers[j].as_ref() == Some(t);
                     let ok_j1 = mid_line && j + 1 < line_ends.len() && n + 1 == line_ends[j + 1] && prefix_headers[j + 1].as_ref() == Some(t);
                     if !(ok_j && !mid_line) && !ok_j1 {
                         fails.push((format!("text-truncated-header-line-accepted-{hfmt}"), format!("cut {k}: the stream ends at {n} inside header line {j} (header text {hdr} bytes): a header parsed from the partial line is returned without error")));
